@@ -1,8 +1,17 @@
 (* C12 — evaluations in one session do not interfere.  Only statements closed by [exact];
-   the proofs live in coq/Mech/*.v. *)
+   the proofs live in coq/Mech/*.v.
+
+   Objects (all executable, coq/Mech/Machine.v and coq/Mech/Spec.v):
+     sess_run / sess_step : the REPL session over the call-by-need machine; every input carries the
+                            step budget of hook H1 ([Abort k e] = [IEval k e] with a small k); the
+                            VM is unwound after every input, whatever its outcome.
+     spec_run n defs e    : the call-by-name, heap-free, memoisation-free meaning (fuel n) of the
+                            stand-alone program `let x1 = e1 in ... in e`.
+     fresh_eval k defs e  : the machine started from an empty session on that program. *)
 From Coq Require Import String ZArith List Bool.
 Import ListNotations.
-From NV Require Import Mech.Syntax Mech.Machine Mech.Spec Mech.Invariants Mech.Broken.
+From NV Require Import Mech.Syntax Mech.Machine Mech.Spec Mech.Invariants Mech.SpecFacts
+  Mech.Refine Mech.Broken.
 
 (* In every configuration reachable by the machine (any run of `eval`, `eval_full`, `:query`,
    started on a heap without black-holed thunks) the update frames on the stack reference
@@ -14,7 +23,8 @@ Theorem C12_blackhole_iff_on_stack :
 Proof. exact blackhole_iff_on_stack_thm. Qed.
 
 (* Unwinding the stack of such a configuration (Drop for VirtualMachine) leaves no black-holed
-   thunk, suspends exactly the black-holed ones and changes nothing else. *)
+   thunk, suspends exactly the black-holed ones and changes nothing else (values of evaluated
+   thunks, locks). *)
 Theorem C12_unwind_clean :
   forall s h, bh_inv s h ->
     let h' := unwind s h in
@@ -34,7 +44,55 @@ Theorem C12_session_heap_good :
     unlocked (sheap (fst (sess_run empty_session h))).
 Proof. exact session_heap_good. Qed.
 
-(* The broken machine (no unwinding) is refuted by a concrete history. *)
+(* Memoised cells are sound, in every configuration reached while evaluating any input after any
+   history: there is an assignment G of call-by-name closures to the thunks such that every thunk
+   was created with the term of its closure in a pointwise corresponding environment, and every
+   Evaluated thunk holds (a machine representation of) the call-by-name value of its closure.
+   Hence the residue of earlier successful or partial evaluations is semantically invisible. *)
+Theorem C12_evaluated_cells_sound :
+  forall (h : list input) (e : tm) (fuel : nat),
+    let s := fst (sess_run empty_session h) in
+    forall r cf k, run fuel (mkcfg (CTm e, stop s) [] (sheap s)) = (r, cf, k) ->
+    exists G : list sclos,
+      length G = length (hp cf) /\
+      forall l c, nth_error (hp cf) l = Some c ->
+        exists t env r,
+          orig c = (CTm t, env) /\ nth_error G l = Some (t, r) /\ env_rel G env r /\
+          match st c with
+          | Evaluated => exists n v, seval n t r = Val v /\ val_rel G (cur c) v
+          | _ => cur c = orig c
+          end.
+Proof. exact evaluated_cells_sound_thm. Qed.
+
+(* THE PROPERTY.  For every history h (definitions, evaluations, full evaluations, queries; each
+   succeeding, failing at any depth, or abandoned after any number of steps) and every input e
+   with any budget k: if the evaluation of e in the session after h is not itself abandoned, then
+     - a value: the stand-alone program `let defs in e` has, for some fuel, the call-by-name value
+       with the same observable shape;
+     - an error other than InfiniteRecursion: the stand-alone program raises the same error class;
+     - InfiniteRecursion: the stand-alone program diverges (for every fuel) — never spurious. *)
+Theorem C12_session_equiv :
+  forall (h : list input) (k : nat) (e : tm),
+    match snd (sess_step (fst (sess_run empty_session h)) (IEval k e)) with
+    | OOk ob => exists n v, spec_run n (defs_of h) e = Val v /\ sobs v = ob
+    | OErr EInfRec => forall n, spec_run n (defs_of h) e = OOF
+    | OErr c => exists n, spec_run n (defs_of h) e = Err c
+    | OBudget => True
+    | OBound | OData _ => False
+    end.
+Proof. exact session_equiv_thm. Qed.
+
+(* The same against the fresh machine: whenever neither run exhausts its budget, the input has
+   the same outcome in the session after h as the stand-alone program on an empty session. *)
+Theorem C12_session_vs_fresh :
+  forall (h : list input) (k k' : nat) (e : tm),
+    let o_session := snd (sess_step (fst (sess_run empty_session h)) (IEval k e)) in
+    let o_fresh := fresh_eval k' (defs_of h) e in
+    o_session <> OBudget -> o_fresh <> OBudget -> o_session = o_fresh.
+Proof. exact session_vs_fresh_thm. Qed.
+
+(* The broken machine (no unwinding on drop) is refuted by a concrete history:
+   let x = 1 + 1 ; x abandoned after 3 steps ; x. *)
 Theorem C12_unwind_clean_broken_refuted :
   exists h, count_blackholed (sheap (fst (sess_run_broken empty_session h))) <> 0.
 Proof. exact unwind_clean_broken_refuted_lemma. Qed.
